@@ -164,7 +164,7 @@ def r191(facts, res):
                         % (what, ixs, len(rec['bad']), '; '.join(why[:6]) or 'none'), {'function': b.path})
             else:
                 res.ok(R, key, loc_of(b, bb), 'in bounds on all paths (%d obligations proved)' % rec['ok'])
-    res.floor(R, 'index sites into the line-start table', nidx, 6)
+    res.floor(R, 'index sites into the line-start table', nidx, 3)
     res.count('R19.1 functions of the module walked', nfn)
 
 
